@@ -30,21 +30,21 @@ F18 = "F18-operation-parked-on-closing-socket"
 
 
 class Case:
-    def __init__(self, kind="g", cb=None, actors=None, tag=""):
-        self.kind, self.cb, self.actors, self.tag = kind, cb, actors or [], tag
+    def __init__(self, kind="g", cb=None, actors=None, tag="", karg=0):
+        self.kind, self.cb, self.actors, self.tag, self.karg = kind, cb, actors or [], tag, karg
 
     def lines(self, sched):
-        out = [sched, f"setup {self.kind}"]
+        out = [sched, f"setup {self.kind}" + (f" {self.karg}" if self.karg else "")]
         if self.cb:
             out.append(f"cb {self.cb[0]} {self.cb[1]}")
         for name, ops in self.actors:
             if ops:
-                out.append("A " + name + " " + " ".join(ops))
+                out.append("A " + name + " " + " ".join(ops[:13]))  # (the line reader takes 16 words)
         out.append("run")
         return out
 
     def key(self):
-        return (self.kind, self.cb, tuple((n, tuple(o)) for n, o in self.actors))
+        return (self.kind, self.karg, self.cb, tuple((n, tuple(o)) for n, o in self.actors))
 
     def nops(self):
         return sum(len(o) for _, o in self.actors)
@@ -162,6 +162,81 @@ def gen_ext(r, i):
     return c
 
 
+def gen_idle(r, i):
+    """cancel/abort of an IDLE aio between operations (a documented no-op): the next operation that has to
+    wait must not inherit it; operations that complete at once in between must not matter"""
+    fam = r.weighted([("g", 4), ("sleep", 2), ("pull", 2), ("push", 1)])
+    idle = lambda: [r.choice(["can", "abt:7", "abt:3"])] + (["can"] if r.chance(1, 4) else [])
+    if fam == "g":
+        c = Case("g", tag="idle-g")
+        first = r.choice([["to:0", "sub", "wt"], ["subi:0", "wt"], ["to:5", "sub", "wt"], ["to:inf", "sub", "wt"]])
+        mid = r.choice([[], [], ["subi:0", "wt"], ["to:0", "sub", "wt"], ["skip", "subi:0"]])
+        u = first + idle() + mid + [f"to:{r.choice(['5', '11', 'inf'])}", "sub", "wt"]
+        c.actors = [("U", u[:13])]
+        if r.chance(2, 3):
+            c.actors.append(("C", ["y"] * r.below(3) + ["cmp:0"] + (["y"] * r.below(4) + ["cmp:0"] if r.chance(1, 2) else [])))
+        if r.chance(1, 2):
+            c.actors.append(("V", ["y"] * r.below(3) + [f"adv:{r.choice(EVEN)}"]))
+    elif fam == "sleep":
+        c = Case("g", tag="idle-sleep")
+        u = [f"to:{r.choice(['inf', 'def', '21'])}", f"slp:{r.choice(ODD)}", "wt"] + idle() + \
+            (["subi:0", "wt"] if r.chance(1, 3) else []) + [f"slp:{r.choice(ODD)}", "wt"]
+        c.actors = [("U", u)]
+        if r.chance(1, 2):
+            c.actors.append(("V", ["y"] * r.below(3) + [f"adv:{r.choice(EVEN)}"]))
+    elif fam == "pull":
+        c = Case("pull", tag="idle-pull")
+        u = [f"to:{r.choice(['5', '11'])}", "rcv", "wt"] + idle() + [f"to:{r.choice(['5', '11', '21'])}", "rcv", "wt"]
+        c.actors = [("U", u), ("D", ["y"] * r.below(3) + ["mrecv"] + (["y"] * r.below(6) + ["mrecv"] if r.chance(1, 2) else []))]
+    else:
+        c = Case("push", tag="idle-push")
+        u = ["nbsnd", f"to:{r.choice(['5', '11'])}", "snd", "wt"] + idle() + [f"to:{r.choice(['5', '11'])}", "snd", "wt"]
+        c.actors = [("U", u), ("D", ["y"] * r.below(3) + ["msend:0"] + (["y"] * r.below(6) + ["msend:0"] if r.chance(1, 2) else []))]
+    return c
+
+
+def gen_lists(r, i):
+    """providers that keep wait lists of aios: several waiters, several completions in a row, no resubmission
+    in between (every waiter must complete exactly once and leave the list)"""
+    fam = r.weighted([("pushbuf", 3), ("pushmany", 2), ("pullmany", 3)])
+    if fam == "pushbuf":
+        n = r.range(1, 2)
+        c = Case("push", tag="pushbuf", karg=n)
+        u = ["nbsnd"] * (n + 1) + (["xsnd:0"] if r.chance(1, 3) else []) + ["to:inf", "snd"] + (["xsnd:1"] if r.chance(1, 3) else []) + ["jn:D", "wt"]
+        d = []
+        for _ in range(r.range(2, 4)):
+            d += ["y"] * r.below(3) + ["msend:0"]
+        c.actors = [("U", u), ("D", d)]
+    elif fam == "pushmany":
+        c = Case("push", tag="pushmany", karg=r.choice([0, 0, 1]))
+        u = ["nbsnd"] * (c.karg + 1) + ["xsnd:0", "xsnd:1", "to:inf", "snd", "jn:D", "wt"]
+        d = []
+        for _ in range(r.range(3, 5)):
+            d += ["y"] * r.below(3) + ["msend:0"]
+        c.actors = [("U", u), ("D", d)]
+    else:
+        c = Case("pull", tag="pullmany")
+        u = r.choice([["xrcv:0", "xrcv:1", "to:inf", "rcv"], ["xrcv:0", "to:inf", "rcv", "xrcv:1"], ["to:inf", "rcv", "xrcv:0", "xrcv:1"]]) + ["jn:D", "wt"]
+        d = []
+        for _ in range(r.range(3, 5)):
+            d += ["y"] * r.below(3) + ["mrecv"]
+        c.actors = [("U", u), ("D", d)]
+    if r.chance(1, 3):
+        c.actors.append(("B", ["y"] * r.below(5) + ["can"]))
+    return c
+
+
+def gen_any(r, i):
+    k = i % 8
+    if k in (3, 7):
+        return gen_ext(r, i)
+    if k == 5:
+        return gen_idle(r, i)
+    if k == 1:
+        return gen_lists(r, i)
+    return gen_generic(r, i)
+
+
 def corpus_cases():
     out = []
     d = os.path.join(core.HERE, "corpus", PROP)
@@ -170,7 +245,7 @@ def corpus_cases():
             if f.endswith(".json"):
                 j = json.load(open(os.path.join(d, f)))
                 c = Case(j.get("kind", "g"), tuple(j["cb"]) if j.get("cb") else None,
-                         [(a[0], a[1]) for a in j["actors"]], tag="corpus:" + f)
+                         [(a[0], a[1]) for a in j["actors"]], tag="corpus:" + f, karg=j.get("karg", 0))
                 out.append((c, j.get("scheds", [])))
     return out
 
@@ -244,6 +319,8 @@ def classify(case, clause, fix_abort=True):
     if not fix_abort and clause.startswith("quiescence: callback with a result other than NNG_ESTOPPED") and case.kind == "g":
         # the same defect seen after a stop: the refused start's NNG_ESTOPPED is overwritten by a late abort
         return SIGNATURES[1][0]
+    if clause.startswith("cancel: code"):
+        return "cancel-code-without-cancel-during-the-operation"
     for key, kinds, prefix in SIGNATURES:
         if clause.startswith(prefix) and (kinds is None or case.kind in kinds):
             return key
@@ -272,7 +349,7 @@ def minimise(exe, case, scheds, want_prefix, budget_s=40):
             for oi in range(len(ops)):
                 if name == "U" and ops[oi] != "y":
                     continue  # (removing waits/joins of the submitting actor would break the user contract)
-                cand = Case(case.kind, case.cb, [(n, list(o)) for n, o in case.actors], case.tag)
+                cand = Case(case.kind, case.cb, [(n, list(o)) for n, o in case.actors], case.tag, case.karg)
                 del cand.actors[ai][1][oi]
                 got = shows(cand)
                 if got:
@@ -305,7 +382,7 @@ def run(tier, seed, replay=None):
     jobs = []
     if replay:
         rp = json.load(open(replay))
-        c = Case(rp.get("kind") or rp.get("case_kind", "g"), tuple(rp["cb"]) if rp.get("cb") else None, [(a[0], a[1]) for a in rp["actors"]], "replay")
+        c = Case(rp.get("kind") or rp.get("case_kind", "g"), tuple(rp["cb"]) if rp.get("cb") else None, [(a[0], a[1]) for a in rp["actors"]], "replay", karg=rp.get("karg", 0))
         jobs = [(c, s) for s in (rp.get("scheds") or [rp.get("sched", "sched 1 rw")])]
         cases = [c]
     else:
@@ -316,7 +393,7 @@ def run(tier, seed, replay=None):
         ngen = 300 if tier == "quick" else 2000
         for i in range(ngen):
             r = core.Rng(seed, PROP, tier, i)
-            c = gen_ext(r, i) if i % 4 == 3 else gen_generic(r, i)
+            c = gen_any(r, i)
             cases.append(c)
             ss = schedules(r, tier)
             if tier == "thorough":
@@ -328,7 +405,7 @@ def run(tier, seed, replay=None):
                 jobs += [(c, s) for s in sw]
             for i in range(40):
                 r = core.Rng(seed, PROP, "sweep", i)
-                c = gen_ext(r, i) if i % 4 == 3 else gen_generic(r, i)
+                c = gen_any(r, i)
                 cases.append(c)
                 jobs += [(c, s) for s in sw]
     accept = "aio-accept" if st.driver_ok else None
@@ -375,7 +452,7 @@ def run(tier, seed, replay=None):
         clause_hist[f6key + " (use after free)"] = len(f6crash)
         c, s, r = min(f6crash, key=lambda x: x[0].nops())
         payload = {"kind": "sanitizer report: the dialer completes a user aio a second time after nni_aio_start had refused (and completed) it; the user had already freed it",
-                   "signature": f6key, "case_kind": c.kind, "cb": c.cb, "actors": c.actors, "sched": s, "scheds": [s], "stderr": r.get("err", "")[:2500]}
+                   "signature": f6key, "case_kind": c.kind, "karg": c.karg, "cb": c.cb, "actors": c.actors, "sched": s, "scheds": [s], "stderr": r.get("err", "")[:2500]}
         if f6key in known:
             v.known_finding(f"{f6key}: {known[f6key].get('text', '')} ({len(f6crash)} runs, use after free)")
             core.write_replay(PROP, seed, "known-F6-uaf", payload)
@@ -389,7 +466,7 @@ def run(tier, seed, replay=None):
         c, s, r = min(f18crash, key=lambda x: x[0].nops())
         payload = {"kind": "sanitizer report: a receive/send submitted while the socket is closing is parked after the protocol flushed its queue; "
                            "it never completes, and a later cancel/stop/free of the aio runs the protocol's cancel function on the destroyed socket",
-                   "signature": F18, "case_kind": c.kind, "cb": c.cb, "actors": c.actors, "sched": s, "scheds": [s], "stderr": r.get("err", "")[:2500]}
+                   "signature": F18, "case_kind": c.kind, "karg": c.karg, "cb": c.cb, "actors": c.actors, "sched": s, "scheds": [s], "stderr": r.get("err", "")[:2500]}
         if F18 in known:
             core.write_replay(PROP, seed, "known-F18", payload)
             v.known_finding(f"{F18}: {known[F18].get('text', '')} ({len(f18crash)} runs)")
@@ -398,33 +475,36 @@ def run(tier, seed, replay=None):
             found_input = True
     for c, s, r in [x for x in crashes if x not in f6crash and x not in f18crash][:2]:
         v.violation(f"crash-{len(v.violations)}", {"kind": "crash / sanitizer report / deadlock / stuck case of the implementation under the simulated platform",
-                    "case_kind": c.kind, "cb": c.cb, "actors": c.actors, "sched": s, "rc": r["rc"], "last_output": r["trace"][-600:], "stderr": r.get("err", "")})
+                    "ops": c.lines(s),
+                    "case_kind": c.kind, "karg": c.karg, "cb": c.cb, "actors": c.actors, "sched": s, "rc": r["rc"], "last_output": r["trace"][-600:], "stderr": r.get("err", "")})
         found_input = True
     for sig, items in viol.items():
         prim = next((p for k, _, p in SIGNATURES if k == sig), None)
         pool = [x for x in items if prim and x[2]["judge"].startswith("VIOLATION " + prim)] or items
         c, s, r = min(pool, key=lambda x: x[0].nops())
         scheds = [x[1] for x in pool if x[0] is c][:6]
-        prefix = next((p for k, _, p in SIGNATURES if k == sig), sig[:40])
+        prefix = next((p for k, _, p in SIGNATURES if k == sig), "cancel: code" if sig.startswith("cancel-code") else sig[:40])
         if sig == SIGNATURES[1][0] and not c_has_prefix(items, prefix):
             prefix = "quiescence: callback with a result other than NNG_ESTOPPED"
         mc, ms, mr = minimise(exe, c, scheds, prefix) if not replay else (c, s, r)
         if ms is None:
             mc, ms, mr = c, s, r
         payload = {"kind": "implementation trace violates the C02 monitor (Spec/Aio.lean)", "signature": sig, "clause": mr["judge"][10:],
-                   "case_kind": mc.kind, "cb": mc.cb, "actors": mc.actors, "sched": ms, "scheds": [ms], "trace": mr["trace"].split(" ; "),
+                   "case_kind": mc.kind, "karg": mc.karg, "cb": mc.cb, "actors": mc.actors, "sched": ms, "scheds": [ms], "trace": mr["trace"].split(" ; "),
                    "runs_with_this_signature": len(items)}
         if sig in known:
             v.known_finding(f"{sig}: {known[sig].get('text', '')} ({len(items)} runs)")
             core.write_replay(PROP, seed, "known-" + sig.split("-")[0], payload)
         else:
-            v.violation("judge-" + sig.split("-")[0].replace(" ", "_")[:20], payload)
+            import re as _re
+            payload["ops"] = mc.lines(ms)
+            v.violation("judge-" + _re.sub(r"[^A-Za-z0-9]+", "_", sig)[:28].strip("_"), payload)
             found_input = True
     if not found_input:
         if rejects:
             c, s, r = min(rejects, key=lambda x: x[0].nops())
             v.violation("corr", {"kind": "correspondence broken: an implementation trace is not a trace of the Lean model the C02 theorems are about "
-                        "(the monitor found no property violation)", "correspondence": "aio-accept vs s_aio", "case_kind": c.kind, "cb": c.cb,
+                        "(the monitor found no property violation)", "correspondence": "aio-accept vs s_aio", "case_kind": c.kind, "karg": c.karg, "cb": c.cb,
                         "actors": c.actors, "sched": s, "scheds": [s], "acceptor": r["accept"], "trace": r["trace"].split(" ; "),
                         "rejected_runs": len(rejects)}, no_input=True)
         elif not (fix_expire and fix_abort):
